@@ -130,7 +130,7 @@ func execGuarded(p *tmplx.Prepared, d *tmplx.Data) (tmplx.Result, bool) {
 		select {
 		case res := <-done:
 			return res, false
-		case <-time.After(20 * time.Second):
+		case <-time.After(time.Duration(20+70*attempt) * time.Second): // a second, longer wait before a hang is believed
 		}
 	}
 	return tmplx.Result{}, true
